@@ -130,4 +130,10 @@ MUTANTS = [
  {"id": "rebased-position-searched-elsewhere", "kind": "break", "edits": [{"patch": "/verif/benign/h5-plist-1/patch.diff"}, ("src/plist.rs", "            bytes[idx..]\n                .iter()\n                .position(|c| !c.is_ascii_whitespace())", "            bytes[idx + 1..]\n                .iter()\n                .position(|c| !c.is_ascii_whitespace())")], "expect": ["D1-"]},
  {"id": "rebased-position-not-added", "kind": "break", "edits": [{"patch": "/verif/benign/h5-plist-1/patch.diff"}, ("src/plist.rs", ".map(|skip| OsStr::from_bytes(&bytes[idx + skip..]))", ".map(|skip| OsStr::from_bytes(&bytes[skip..]))")], "expect": ["D1-"]},
  {"id": "rebased-position-first-blank", "kind": "break", "edits": [{"patch": "/verif/benign/h5-plist-1/patch.diff"}, ("src/plist.rs", "                .position(|c| !c.is_ascii_whitespace())\n                .map(|skip| OsStr::from_bytes(&bytes[idx + skip..]))", "                .position(|c| c.is_ascii_whitespace())\n                .map(|skip| OsStr::from_bytes(&bytes[idx + skip..]))")], "expect": ["D1-"]},
+
+ # argument splitting in a helper split_args(bytes, idx) that answers None for idx == 0
+ {"id": "split-args-helper-benign", "kind": "benign", "edits": [{"patch": "/verif/benign/h6-plist-1/patch.diff"}]},
+ {"id": "split-args-helper-no-zero-test", "kind": "break", "edits": [{"patch": "/verif/benign/h6-plist-1/patch.diff"}, ("src/plist.rs", "        if idx == 0 {\n            return None;\n        }\n        let rest = &bytes[idx..];", "        let rest = &bytes[idx..];")], "expect": ["D1-"]},
+ {"id": "split-args-helper-from-line-start", "kind": "break", "edits": [{"patch": "/verif/benign/h6-plist-1/patch.diff"}, ("src/plist.rs", "        let rest = &bytes[idx..];", "        let rest = &bytes[idx / 2..];")], "expect": ["D1-"]},
+ {"id": "split-args-helper-skips-to-last-blank", "kind": "break", "edits": [{"patch": "/verif/benign/h6-plist-1/patch.diff"}, ("src/plist.rs", "            .position(|c| !c.is_ascii_whitespace())\n            .map(|n| OsStr::from_bytes(&rest[n..]))", "            .rposition(|c| c.is_ascii_whitespace())\n            .map(|n| OsStr::from_bytes(&rest[n + 1..]))")], "expect": ["D1-"]},
 ]
